@@ -370,6 +370,22 @@ func (ex *Exec) callContractSig(st *State, fr *Frame, cs *FuncSpec, sig *types.S
 	if cs.Panics != nil && cs.Panics.appliesTo(ex.prop) {
 		ex.check(st, "pre", fmt.Sprintf("%s/pre:%s#%d.nopanic", ex.fnName(), short, ord), Not(ctx.EvalBool(cs.Panics.Expr)), "call of "+short+" must not panic: "+cs.Panics.Src, ex.pos(instr))
 	}
+	// a callee that is itself a critical section of a monitor (a method of the monitor type that is not
+	// `underlock`): if this path has already been inside that monitor, other threads ran in between -
+	// the callee's sequential contract applies to an interfered state, not to the one this path last saw
+	if recvT != nil && cs.UnderLock == "" && !ex.preOnly && len(args) > 0 && args[0] != nil && args[0].T != nil && ex.calleeLocks(cs) {
+		if n, ok := types.Unalias(derefType(ex.env.resolve(recvT))).(*types.Named); ok && n.Obj().Pkg() != nil {
+			if m := ex.monitorDecl(n.Obj().Pkg().Path() + "." + n.Obj().Name()); m != nil && !st.held["."+m.Lock] {
+				if _, isStruct := n.Underlying().(*types.Struct); isStruct {
+					name := "." + m.Lock
+					if st.locks[name] > 0 || st.locks["*cut*"] > 0 {
+						ex.monitorInterfere(st, fr, m, args[0].T, n)
+					}
+					st.locks[name]++
+				}
+			}
+		}
+	}
 	if cs.UnderLock != "" && !ex.preOnly && ex.fn != nil && ex.fn.Name() == "init" && ex.fn.Synthetic != "" {
 		ex.trusted["package initialisation runs before any other goroutine can reach the package state"] = true
 	} else if cs.UnderLock != "" && !ex.preOnly {
@@ -1958,6 +1974,30 @@ func (ex *Exec) lockOp(st *State, fr *Frame, key string, recv *Val, instr ssa.In
 	}
 }
 
+// calleeLocks: does the body of the function under contract cs acquire a mutex field of its receiver?
+// (syntactic scan of its SSA: a call of (*sync.Mutex).Lock / (*sync.RWMutex).Lock on a field address)
+func (ex *Exec) calleeLocks(cs *FuncSpec) bool {
+	fn := ex.P.Funcs[cs.Key]
+	if fn == nil {
+		return false
+	}
+	for _, b := range fn.Blocks {
+		for _, in := range b.Instrs {
+			ci, ok := in.(ssa.CallInstruction)
+			if !ok {
+				continue
+			}
+			if callee := ci.Common().StaticCallee(); callee != nil {
+				switch funcKey(callee) {
+				case "sync.(*Mutex).Lock", "sync.(*RWMutex).Lock", "sync.(*RWMutex).RLock":
+					return true
+				}
+			}
+		}
+	}
+	return false
+}
+
 // monitors returns the monitor declarations that apply to the property being checked.
 func (ex *Exec) monitors() []*MonitorSpec {
 	var out []*MonitorSpec
@@ -2014,6 +2054,13 @@ func (ex *Exec) monitorEnter(st *State, fr *Frame, name string, recv *Val, instr
 		st.lockSnaps = append(st.lockSnaps, st.snapshot())
 		return
 	}
+	ex.monitorInterfere(st, fr, m, self, base)
+	st.lockSnaps = append(st.lockSnaps, st.snapshot())
+}
+
+// monitorInterfere: other threads may have run since this path last held (or looked at) the monitor:
+// the guarded state is arbitrary within the invariant (plus resource assumption and rely).
+func (ex *Exec) monitorInterfere(st *State, fr *Frame, m *MonitorSpec, self *Term, base types.Type) {
 	stru := ex.env.resolve(base).Underlying().(*types.Struct)
 	for _, g := range m.Guards {
 		if strings.HasPrefix(g, "pkg:") {
@@ -2108,7 +2155,6 @@ func (ex *Exec) monitorEnter(st *State, fr *Frame, name string, recv *Val, instr
 		st.assume(c.EvalBool(m.Rely.Expr))
 		ex.trusted["rely of monitor "+m.TypeName+" (implied by every thread's proved guarantee; ownership = allocated by the invocation): "+m.Rely.Src] = true
 	}
-	st.lockSnaps = append(st.lockSnaps, st.snapshot())
 }
 
 func (ex *Exec) monitorAssuming(st *State, fr *Frame, m *MonitorSpec, self *Term, base types.Type) {
